@@ -49,7 +49,7 @@ class Ctx:
 
     # -------------------------------------------------------------------------------------------
     def job(self, name, gens, invariants, ops=None, cfg=None, cli=False, fmt_hooks=False, extra_files=None,
-            nontrivial=None, trace_module="Trace", validate_timeout=1500, sample_filter=None):
+            nontrivial=None, trace_module="Trace", validate_timeout=1500, sample_filter=None, conform=False):
         """gens: list of dict(base=<generator module>, consts={..}, emit=<invariant name>, [simulate=(num, depth)],
                               [constraint=<name>])  or dict(file=<ndjson path of ready-made behaviours>)
                  or dict(rust=[args for `chk gen`])"""
@@ -89,13 +89,15 @@ class Ctx:
                 continue
             gcfg = dict(cfg, **g["cfg"]) if g.get("cfg") else cfg
             gdefaults = dict(defaults, cfg=cfg_json(gcfg)) if g.get("cfg") else defaults
-            consts = dict(base_consts(gcfg, ops or [], name))
+            consts = {} if g.get("raw_consts") else dict(base_consts(gcfg, ops or [], name))
             consts.update(g.get("consts", {}))
             body = GEN_CFG_HEAD + "INVARIANT %s\n" % g.get("emit", "EmitAll")
             for xi in g.get("extra_inv", []) if isinstance(g.get("extra_inv"), list) else ([g["extra_inv"]] if g.get("extra_inv") else []):
                 body += "INVARIANT %s\n" % xi
             if g.get("constraint"):
                 body += "CONSTRAINT %s\n" % g["constraint"]
+            if g.get("view"):
+                body += "VIEW %s\n" % g["view"]
             gname = "G%d_%s" % (gi, g["base"])
             n, states, secs = tlc_generate(d, gname, g["base"], consts, body, beh, defaults=gdefaults,
                                            simulate=g.get("simulate"), seed=self.seed, append=True,
@@ -125,7 +127,15 @@ class Ctx:
             raise StopSelftest()
         skip = []
         while True:
-            res = tlc_validate(d, trace, invariants, skip=skip, name=trace_module, timeout=validate_timeout)
+            res = tlc_validate(d, trace, invariants + (["Conf_All"] if conform else []), skip=skip, name=trace_module,
+                               timeout=validate_timeout)
+            for layer, whos in res.get("drift", {}).items():
+                dr = self.cov.setdefault("drift", {})
+                dr[layer] = dr.get(layer, 0) + len(whos)
+                log("DRIFT [%s] job %s: %d behaviours where the code differs from Layer I (%s), e.g. %s" % (
+                    self.prop, name, len(whos), layer, whos[0]))
+            if conform:
+                self.cov["conformance_checked"] = self.cov.get("conformance_checked", 0) + count_lines(trace)
             self.cov["states"] += res["states"]
             self.cov["transitions"] += res["transitions"]
             for (kprop, kid), whos in res.get("known", {}).items():
@@ -167,6 +177,38 @@ class Ctx:
             shutil.rmtree(d, ignore_errors=True)
         return nbeh
 
+    def mc(self, name, module, consts, invariants, view=None, constraint=None, workers=None, timeout=1800,
+           init="Init", nxt="Next"):
+        """Model checking of Layer I against Layer R (no code involved).  A failure here is a tool error: either
+        the transcription or the reference is wrong - the code is judged by the trace checks only."""
+        from vlib import gen_module, run_tlc, tlc_stats
+        self.jobno += 1
+        d = workdir("%s_%s_%02d_mc_%s" % (self.prop, self.tier, self.jobno, name))
+        cfgtext = "INIT %s\nNEXT %s\nCHECK_DEADLOCK FALSE\n" % (init, nxt)
+        for inv in invariants:
+            cfgtext += "INVARIANT %s\n" % inv
+        if view:
+            cfgtext += "VIEW %s\n" % view
+        if constraint:
+            cfgtext += "CONSTRAINT %s\n" % constraint
+        cfgtext += gen_module(d, "MCRUN", module, consts)
+        rc, outp, secs = run_tlc(d, "MCRUN", cfgtext, timeout=timeout, workers=workers)
+        gen, dist = tlc_stats(outp)
+        text = open(outp, errors="replace").read()
+        if rc != 0 or "No error has been found" not in text:
+            raise ToolError("model checking %s (%s) failed: Layer I does not satisfy Layer R, or the model is broken; see %s\n%s"
+                            % (name, module, outp, text[-1500:]))
+        self.cov["states"] += dist
+        self.cov["transitions"] += gen
+        self.cov.setdefault("model_checking", []).append(
+            {"name": name, "module": module, "invariants": invariants, "distinct_states": dist, "states_generated": gen,
+             "view": view, "secs": round(secs, 1),
+             "bounds": {k: v for k, v in consts.items() if isinstance(v, (int, str))}})
+        log("[%s] model checking %s: %d distinct states, no error (%.1fs)" % (self.prop, name, dist, secs))
+        if not os.environ.get("VERIF_KEEP"):
+            shutil.rmtree(d, ignore_errors=True)
+        return dist
+
     def _scan_trace(self, trace, nontrivial, sample_filter):
         taken = 0
         with open(trace) as f:
@@ -207,6 +249,12 @@ class Ctx:
     def write_evidence(self, extra_cov=None):
         cov = dict(self.cov)
         cov["distinct_nontrivial"] = len(self.nontrivial)
+        try:
+            import checks
+            cov["rule"] = checks.RULES.get(self.prop, "")
+        except Exception:
+            pass
+        cov["checker_cmd"] = "bin/check %s --tier %s" % (self.prop, self.tier)
         if extra_cov:
             cov.update(extra_cov)
         if not cov["samples"]:
